@@ -398,6 +398,12 @@ pub fn targets_for(id: &str, tier: Tier) -> Option<Vec<Box<dyn Target>>> {
         };
         return Some(tworlds(id, tier).into_iter().map(|spec| Box::new(TTarget { spec, oracle }) as Box<dyn Target>).collect());
     }
+    if id == "C20" {
+        fn none(_: &WorldSpec, _: &Exec) -> Option<Viol> {
+            None
+        }
+        return Some(c20_worlds(tier).into_iter().map(|spec| Box::new(WorldTarget { spec, oracle: none, digest: true }) as Box<dyn Target>).collect());
+    }
     let def = check_def(id, tier)?;
     let oracle = def.oracle;
     Some(def.worlds.into_iter().map(|spec| Box::new(WorldTarget { spec, oracle, digest: false }) as Box<dyn Target>).collect())
@@ -484,4 +490,14 @@ pub fn c13_worlds(tier: Tier) -> Vec<WorldSpec> {
             s
         })
         .collect()
+}
+
+/// C20 compares the three builds over the C17 worlds plus the semantic worlds of the unary
+/// operators, interval and share at their quick bounds.
+pub fn c20_worlds(tier: Tier) -> Vec<WorldSpec> {
+    let mut v = proto_worlds(tier, true, true);
+    v.extend(c07_worlds(Tier::Quick));
+    v.extend(c14_worlds(Tier::Quick));
+    v.extend(c16_worlds(Tier::Quick));
+    v
 }
